@@ -837,6 +837,15 @@ static int32_t pstm_sqr_comba16(const pstm_int *A, pstm_int *B)
     COMBA_STORE2(b[31]);
     COMBA_FINI;
 
+    /* clear digits of the previous value of B above the result */
+    {
+        uint16_t x;
+
+        for (x = 32; x < B->used; x++)
+        {
+            B->dp[x] = 0;
+        }
+    }
     B->used = 32;
     B->sign = PSTM_ZPOS;
     Memcpy(B->dp, b, 32 * sizeof(pstm_digit));
@@ -1185,6 +1194,15 @@ static int32_t pstm_sqr_comba32(const pstm_int *A, pstm_int *B)
     COMBA_STORE2(b[63]);
     COMBA_FINI;
 
+    /* clear digits of the previous value of B above the result */
+    {
+        uint16_t x;
+
+        for (x = 64; x < B->used; x++)
+        {
+            B->dp[x] = 0;
+        }
+    }
     B->used = 64;
     B->sign = PSTM_ZPOS;
     Memcpy(B->dp, b, 64 * sizeof(pstm_digit));
